@@ -17,7 +17,8 @@ import pyval
 from lib import cstr, cz, cnat, cbool, clist, copt
 from pyval import val_coq, fn_coq, fn_of, TYPES, TY_COQ, cls_of
 
-REGEXES = {0: 'a+', 1: '(?P<n>[0-9]+)', 2: '.*'}
+REGEXES = {0: 'a+', 1: '(?P<n>[0-9]+)', 2: '.*', 3: 'a+', 4: 'a+'}
+REGEX_FUNCS = {3: 'match', 4: 'search'}     # the other two matching functions: a prefix, anywhere
 M_OPS = {'=': operator.eq, '!': operator.ne, '<': operator.lt, '>': operator.gt, 'l': operator.le, 'g': operator.ge}
 
 
@@ -216,7 +217,8 @@ def _build(ir, r, ctor=True):
     if k == 'Required':
         return glom.Required(B(ir[1]))
     if k == 'Regex':
-        return glom.Regex(REGEXES[ir[1]])
+        import re
+        return glom.Regex(REGEXES[ir[1]], func=getattr(re, REGEX_FUNCS[ir[1]])) if ir[1] in REGEX_FUNCS else glom.Regex(REGEXES[ir[1]])
     raise ValueError(ir)
 
 
